@@ -50,7 +50,6 @@ def _get_line(line, lines, side):
             for coord, line in enumerate(lines[::step]):
                 if ident in line:
                     number -= step
-                    break
                 if number == 0:
                     break
             else:
